@@ -34,6 +34,32 @@ class _SetLikeList(list):
 
     __rand__, __ror__ = __and__, __or__
 
+    # dict views compare as sets (subset / superset / equality), not as sequences
+    def __le__(self, o):
+        return set(self) <= set(o)
+
+    def __lt__(self, o):
+        return set(self) < set(o)
+
+    def __ge__(self, o):
+        return set(self) >= set(o)
+
+    def __gt__(self, o):
+        return set(self) > set(o)
+
+    def __eq__(self, o):
+        if isinstance(o, (set, frozenset, _SetLikeList)):
+            return set(self) == set(o)
+        return False  # a dict view never equals a list or a tuple
+
+    def __ne__(self, o):
+        return not self.__eq__(o)
+
+    __hash__ = None
+
+    def isdisjoint(self, o):
+        return set(self).isdisjoint(o)
+
 
 class PEvalUnsupported(Exception):
     pass
@@ -54,6 +80,59 @@ class Opaque:
 
     def __repr__(self):
         return f"<{self.name}>"
+
+
+def _walk_own(fn_node):
+    """nodes of a function body without those of nested functions / lambdas / classes"""
+    todo = list(fn_node.body)
+    while todo:
+        n = todo.pop()
+        yield n
+        for c in ast.iter_child_nodes(n):
+            if not isinstance(c, (ast.FunctionDef, ast.AsyncFunctionDef, ast.Lambda, ast.ClassDef)):
+                todo.append(c)
+
+
+class _Closure:
+    """a nested def / lambda: the code, the environment it was created in (by reference: late binding, as in Python) and the enclosing function"""
+    def __init__(self, node, env, fi):
+        self.node, self.env, self.fi = node, env, fi
+
+
+class _Partial:
+    """functools.partial / operator.methodcaller / attrgetter / itemgetter objects"""
+    def __init__(self, kind, args, kwargs):
+        self.kind, self.args, self.kwargs = kind, args, kwargs
+
+
+import operator as _op
+
+_OPERATOR_FUNCS = {"operator." + n: getattr(_op, n) for n in ("add", "sub", "mul", "truediv", "floordiv", "mod", "neg", "eq", "ne", "lt", "le", "gt", "ge", "and_", "or_", "not_", "truth",
+                                                             "contains", "getitem", "iadd", "concat", "iconcat", "is_", "is_not", "countOf", "indexOf")}
+
+
+class _PyFunc:
+    """a function of the operator module as a value (operator.iadd handed to reduce): applied to folded values as it is"""
+    def __init__(self, name):
+        self.name = name
+
+
+class _PyIter:
+    """an iterator object made by iter(): stateful, consumed by next() / for / the builtins"""
+    def __init__(self, it):
+        self.it = it
+
+    def __iter__(self):
+        return self
+
+    def __next__(self):
+        return next(self.it)
+
+
+class _Sentinel:
+    """object(): equal only to itself"""
+    def __repr__(self):
+        return "<object>"
 
 
 class _ModuleScope:
@@ -160,11 +239,111 @@ class PEval:
                 if d is None:
                     raise PEvalUnsupported(f"missing argument {p} for {fi.qname}")
                 env[p] = self.eval(d, {}, fi, depth)
+        own = [x for x in _walk_own(fi.node)]
+        if any(isinstance(x, (ast.Yield, ast.YieldFrom)) for x in own):
+            # a generator function: folded eagerly (all elements produced at the call), which is what the lazy original gives whenever producing
+            # an element writes nothing -- anything else is refused
+            if any((isinstance(x, (ast.Attribute, ast.Subscript)) and isinstance(x.ctx, (ast.Store, ast.Del))) or isinstance(x, (ast.Global, ast.Nonlocal)) for x in own):
+                raise PEvalUnsupported(f"generator function {fi.name} writes state while producing")
+            if not hasattr(self, "_yields"):
+                self._yields = []
+            self._yields.append([])
+            try:
+                try:
+                    self.block(fi.node.body, env, fi, depth)
+                except _Ret:
+                    pass
+                out = self._yields[-1]
+            finally:
+                self._yields.pop()
+            return _PyIter(iter(out))
         try:
             self.block(fi.node.body, env, fi, depth)
         except _Ret as r:
             return r.v
         return None
+
+    def call_value(self, fv, args, kwargs, fi, depth, at=None):
+        """apply a callable *value* (closure, function reference, bound method, class, partial, getter) to folded arguments"""
+        kwargs = kwargs or {}
+        if isinstance(fv, _Closure):
+            if depth > 60:
+                raise PEvalUnsupported("recursion too deep")
+            a = fv.node.args
+            if a.vararg or a.kwarg or a.kwonlyargs or a.posonlyargs:
+                raise PEvalUnsupported("closure with star / keyword-only parameters")
+            names = [x.arg for x in a.args]
+            if len(args) > len(names) or any(k not in names for k in kwargs):
+                raise Raised("TypeError", at or fv.node)
+            env2 = dict(fv.env)
+            ndef = len(a.defaults)
+            for i, nme in enumerate(names):
+                if i < len(args):
+                    env2[nme] = args[i]
+                elif nme in kwargs:
+                    env2[nme] = kwargs[nme]
+                elif i >= len(names) - ndef:
+                    env2[nme] = self.eval(a.defaults[i - (len(names) - ndef)], fv.env, fv.fi, depth)
+                else:
+                    raise Raised("TypeError", at or fv.node)
+            if isinstance(fv.node, ast.Lambda):
+                return self.eval(fv.node.body, env2, fv.fi, depth + 1)
+            if any(isinstance(x, (ast.Yield, ast.YieldFrom)) for x in ast.walk(fv.node)):
+                raise PEvalUnsupported("nested generator function")
+            try:
+                self.block(fv.node.body, env2, fv.fi, depth + 1)
+            except _Ret as r:
+                return r.v
+            return None
+        if isinstance(fv, tuple) and len(fv) >= 2 and fv[0] == "func":
+            t = fv[1]
+            if t.qname in self.stubs:
+                return self.stubs[t.qname]
+            recv = [Opaque("cls")] if t.kind == "class" else []
+            return self.call(t, recv + list(args), kwargs, depth + 1)
+        if isinstance(fv, tuple) and len(fv) == 3 and fv[0] == "boundmethod":
+            m, base = fv[1], fv[2]
+            recv = [base] if m.kind == "method" else ([Opaque("cls")] if m.kind == "class" else [])
+            return self.call(m, recv + list(args), kwargs, depth + 1)
+        if isinstance(fv, _Partial):
+            if fv.kind == "partial":
+                return self.call_value(fv.args[0], list(fv.args[1:]) + list(args), dict(fv.kwargs, **kwargs), fi, depth, at)
+            if len(args) != 1 or kwargs:
+                raise Raised("TypeError", at)
+            x = args[0]
+            if fv.kind == "methodcaller":
+                node_ = ast.Call(func=ast.Attribute(value=ast.Name(id="__recv__", ctx=ast.Load()), attr=fv.args[0], ctx=ast.Load()),
+                                 args=[ast.Name(id=f"__a{i}__", ctx=ast.Load()) for i in range(len(fv.args) - 1)],
+                                 keywords=[ast.keyword(arg=k, value=ast.Name(id=f"__k_{k}__", ctx=ast.Load())) for k in fv.kwargs])
+                env2 = {"__recv__": x}
+                env2.update({f"__a{i}__": v for i, v in enumerate(fv.args[1:])})
+                env2.update({f"__k_{k}__": v for k, v in fv.kwargs.items()})
+                ast.fix_missing_locations(node_)
+                return self.eval_call(node_, env2, fi, depth)
+            if fv.kind == "attrgetter":
+                vals = [self.eval(ast.Attribute(value=ast.Name(id="__recv__", ctx=ast.Load()), attr=a_, ctx=ast.Load()), {"__recv__": x}, fi, depth) for a_ in fv.args]
+                return vals[0] if len(vals) == 1 else tuple(vals)
+            if fv.kind == "itemgetter":
+                try:
+                    vals = [x[k] for k in fv.args]
+                except (KeyError, IndexError, TypeError) as ex:
+                    raise Raised(type(ex).__name__, at)
+                return vals[0] if len(vals) == 1 else tuple(vals)
+        if isinstance(fv, _PyFunc):
+            if kwargs or any(isinstance(a, Opaque) for a in args):
+                raise PEvalUnsupported(f"{fv.name} of opaque")
+            if any(isinstance(a, dict) and isinstance(a.get("__obj__"), bool) for a in args) and fv.name not in ("operator.is_", "operator.is_not"):
+                raise PEvalUnsupported(f"{fv.name} of an abstract instance")
+            try:
+                return _OPERATOR_FUNCS[fv.name](*args)
+            except (TypeError, ValueError, KeyError, IndexError, ZeroDivisionError) as ex:
+                raise Raised(type(ex).__name__, at)
+        if isinstance(fv, type) and fv in (str, int, float, bool, list, tuple, dict, set, frozenset):
+            try:
+                return fv(*args, **kwargs)
+            except (TypeError, ValueError) as ex:
+                raise Raised(type(ex).__name__, at)
+        raise PEvalUnsupported("call of a value the folder does not model")
 
     # ------------------------------------------------------------- statements
     def block(self, stmts, env, fi, depth):
@@ -215,7 +394,12 @@ class PEval:
             if isinstance(it, Opaque):
                 raise PEvalUnsupported(f"iteration over opaque {it}")
             broke = False
-            for x in list(it):
+            import types as _types
+            if isinstance(it, dict) and isinstance(it.get("__obj__"), bool):
+                if "__iter__" not in it:
+                    raise PEvalUnsupported("iteration over an abstract instance")
+                it = list(it["__iter__"])
+            for x in (it if isinstance(it, (_types.GeneratorType, _PyIter)) else list(it)):
                 self.assign(s.target, x, env, fi, depth)
                 try:
                     self.block(s.body, env, fi, depth)
@@ -247,6 +431,10 @@ class PEval:
                 from .exc import resolve_exc_class
                 cls = resolve_exc_class(self.prog, fi.module, s.exc)
             raise Raised(cls or "Exception", s)
+        elif isinstance(s, ast.FunctionDef) and not s.decorator_list:
+            if any(isinstance(x, (ast.Nonlocal, ast.Global)) for x in ast.walk(s)):
+                raise PEvalUnsupported("nested function with nonlocal / global")
+            env[s.name] = _Closure(s, env, fi)
         elif isinstance(s, ast.Delete):
             for t in s.targets:
                 if isinstance(t, ast.Subscript):
@@ -295,6 +483,24 @@ class PEval:
             from .exc import Hierarchy
             self._h = Hierarchy(self.prog)
         return self._h
+
+    def _module_value(self, r, depth):
+        """a module-level table the plain constant folder cannot read (function references as values, a comprehension over another table,
+        A | B): its defining expression folded once, in the defining module; None when it is not such a table"""
+        if not (r and r[0] == "const" and r[1].const_multi.get(r[2], 0) == 1 and isinstance(r[1].consts.get(r[2]), (ast.Dict, ast.List, ast.Tuple, ast.Set, ast.DictComp, ast.ListComp,
+                                                                                                                       ast.SetComp, ast.Call, ast.Subscript, ast.BinOp))):
+            return None
+        key = ("<module-expr>", r[1].name, r[2])
+        if key not in self.class_state:
+            if depth > 40:
+                raise PEvalUnsupported("module table nesting")
+            stub = _ModuleScope(r[1])
+            self.class_state[key] = None
+            try:
+                self.class_state[key] = self.eval(r[1].consts[r[2]], {}, stub, depth + 1)
+            except (Raised, PEvalUnsupported):
+                self.class_state[key] = None  # not a table the folder can read (a logger, a compiled pattern): opaque, as before
+        return self.class_state[key]
 
     def _module_state(self, mi, name, fi, depth):
         """module-level names that denote one long-lived object: a mutable container literal (one object per analysis, so
@@ -421,27 +627,13 @@ class PEval:
                 return v
             if r and r[0] in ("class", "func", "module"):
                 return r
-            if r and r[0] == "const" and r[1].const_multi.get(r[2], 0) == 1 and isinstance(r[1].consts.get(r[2]), (ast.Dict, ast.List, ast.Tuple, ast.Set, ast.DictComp, ast.ListComp,
-                                                                                                                    ast.SetComp, ast.Call, ast.Subscript, ast.BinOp)):
-                # a module-level table the plain constant folder cannot read (function references as values, a comprehension over
-                # another table): fold its defining expression once, in the defining module
-                key = ("<module-expr>", r[1].name, r[2])
-                if key not in self.class_state:
-                    if depth > 40:
-                        raise PEvalUnsupported("module table nesting")
-                    stub = _ModuleScope(r[1])
-                    self.class_state[key] = None
-                    try:
-                        self.class_state[key] = self.eval(r[1].consts[r[2]], {}, stub, depth + 1)
-                    except Raised:
-                        del self.class_state[key]
-                        raise PEvalUnsupported(f"module-level table {r[2]} raises while folding")
-                    except PEvalUnsupported:
-                        del self.class_state[key]
-                        raise
-                v2 = self.class_state[key]
-                if v2 is not None:
-                    return v2
+            if r and r[0] == "external" and r[1] in _OPERATOR_FUNCS:
+                return _PyFunc(r[1])
+            if r and r[0] == "external" and r[1] in getattr(self, "externals", {}):
+                return self.externals[r[1]]
+            mv = self._module_value(r, depth)
+            if mv is not None:
+                return mv
             return Opaque(e.id)
         if isinstance(e, ast.Attribute):
             r0 = self.prog.resolve_name_expr(fi.module, e) if isinstance(e.value, (ast.Name, ast.Attribute)) else None
@@ -456,6 +648,18 @@ class PEval:
             r = self.prog.resolve_name_expr(fi.module, e)
             if r and r[0] in ("class", "func", "module"):
                 return r
+            if r and r[0] == "external" and r[1] in _OPERATOR_FUNCS:
+                return _PyFunc(r[1])
+            if r and r[0] == "external" and r[1] in getattr(self, "externals", {}):
+                return self.externals[r[1]]
+            if r and r[0] == "const":
+                ms = self._module_state(r[1], r[2], fi, depth)
+                if ms is not None:
+                    return ms
+                mv = self._module_value(r, depth)
+                if mv is not None:
+                    return mv
+                return Opaque(norm(e))
             base = self.eval(e.value, env, fi, depth)
             if isinstance(base, dict) and e.attr in base and isinstance(base.get("__obj__"), bool):
                 return base[e.attr]
@@ -485,6 +689,10 @@ class PEval:
                 return self.class_state[key]
             if isinstance(base, Opaque):
                 return Opaque(f"{base.name}.{e.attr}")
+            if base is not None and (type(base) is object or isinstance(base, _Sentinel)):
+                raise Raised("AttributeError", e)
+            if isinstance(base, tuple) and len(base) >= 2 and base[0] in ("module", "class", "func", "const", "external", "boundmethod"):
+                raise PEvalUnsupported(f"attribute {norm(e)} of a {base[0]}")
             if base is None or (isinstance(base, (str, int, float, list, tuple, set, frozenset, bool)) and not hasattr(base, e.attr)):
                 raise Raised("AttributeError", e)  # None.parent, "text".children: what Python does with it
             raise PEvalUnsupported(f"attribute {norm(e)}")
@@ -582,6 +790,43 @@ class PEval:
             return "".join(parts)
         if isinstance(e, ast.Call):
             return self.eval_call(e, env, fi, depth)
+        if isinstance(e, (ast.Yield, ast.YieldFrom)):
+            if not getattr(self, "_yields", None):
+                raise PEvalUnsupported("yield outside a folded generator function")
+            if isinstance(e, ast.Yield):
+                self._yields[-1].append(self.eval(e.value, env, fi, depth) if e.value is not None else None)
+            else:
+                v = self.eval(e.value, env, fi, depth)
+                if isinstance(v, Opaque) or (isinstance(v, dict) and isinstance(v.get("__obj__"), bool)):
+                    raise PEvalUnsupported("yield from opaque")
+                self._yields[-1].extend(list(v))
+            return None
+        if isinstance(e, ast.Lambda):
+            return _Closure(e, env, fi)
+        if isinstance(e, ast.GeneratorExp) and not any(g.is_async for g in e.generators):
+            # a generator expression is lazy: the outermost iterable is evaluated now, everything else when (and if) an element is asked for
+            first_it = self.eval(e.generators[0].iter, env, fi, depth)
+            if isinstance(first_it, dict) and isinstance(first_it.get("__obj__"), bool) and "__iter__" in first_it:
+                first_it = list(first_it["__iter__"])
+            if isinstance(first_it, Opaque) or (isinstance(first_it, dict) and isinstance(first_it.get("__obj__"), bool)):
+                raise PEvalUnsupported("generator over opaque")
+
+            def lazy(i, env2, first):
+                g = e.generators[i]
+                it = first if i == 0 else self.eval(g.iter, env2, fi, depth)
+                if isinstance(it, dict) and isinstance(it.get("__obj__"), bool) and "__iter__" in it:
+                    it = list(it["__iter__"])
+                if isinstance(it, Opaque) or (isinstance(it, dict) and isinstance(it.get("__obj__"), bool)):
+                    raise PEvalUnsupported("generator over opaque")
+                for x in it:
+                    env3 = dict(env2)
+                    self.assign(g.target, x, env3, fi, depth)
+                    if all(self.truth(self.eval(c, env3, fi, depth), c) for c in g.ifs):
+                        if i + 1 == len(e.generators):
+                            yield self.eval(e.elt, env3, fi, depth)
+                        else:
+                            yield from lazy(i + 1, env3, None)
+            return lazy(0, env, first_it)
         if isinstance(e, (ast.ListComp, ast.GeneratorExp, ast.DictComp, ast.SetComp)):
             out, outd, outs = [], {}, set()
 
@@ -596,6 +841,10 @@ class PEval:
                     return
                 g = e.generators[i]
                 it = self.eval(g.iter, env2, fi, depth)
+                if isinstance(it, dict) and isinstance(it.get("__obj__"), bool):
+                    if "__iter__" not in it:
+                        raise PEvalUnsupported("comprehension over an abstract instance")
+                    it = list(it["__iter__"])
                 if isinstance(it, Opaque):
                     raise PEvalUnsupported("comprehension over opaque")
                 for x in list(it):
@@ -676,6 +925,46 @@ class PEval:
                     raise Raised("ValueError", e)
                 except TypeError:
                     raise Raised("TypeError", e)
+            if n in ("map", "filter") and len(args) >= 2 and not kwargs:
+                if any(isinstance(a, Opaque) or (isinstance(a, dict) and isinstance(a.get("__obj__"), bool)) for a in args[1:]):
+                    raise PEvalUnsupported(f"{n} over opaque")
+                f0 = args[0]
+                if n == "map":
+                    return _PyIter(map(lambda *xs: self.call_value(f0, list(xs), {}, fi, depth, e), *args[1:]))
+                if f0 is None:
+                    return _PyIter(filter(None, args[1]))
+                return _PyIter(filter(lambda x: self.truth(self.call_value(f0, [x], {}, fi, depth, e), e), args[1]))
+            if n in ("sorted", "min", "max") and "key" in kwargs and not isinstance(kwargs["key"], Opaque) and args and not any(isinstance(a, Opaque) for a in args):
+                kf = kwargs["key"]
+                kw2 = {k: v for k, v in kwargs.items() if k != "key"}
+                try:
+                    return {"sorted": sorted, "min": min, "max": max}[n](*args, key=lambda x: self.call_value(kf, [x], {}, fi, depth, e), **kw2)
+                except (TypeError, ValueError) as ex:
+                    raise Raised(type(ex).__name__, e)
+            if n in ("next", "iter") and args and not kwargs:
+                import types as _types
+                a0 = args[0]
+                if isinstance(a0, Opaque) or (isinstance(a0, dict) and isinstance(a0.get("__obj__"), bool)):
+                    raise PEvalUnsupported(f"{n} of opaque")
+                if n == "iter" and len(args) == 1:
+                    if isinstance(a0, (_types.GeneratorType, _PyIter)):
+                        return a0
+                    try:
+                        return _PyIter(iter(a0))
+                    except TypeError:
+                        raise Raised("TypeError", e)
+                if n == "next" and len(args) <= 2:
+                    if not isinstance(a0, (_types.GeneratorType, _PyIter)):
+                        raise Raised("TypeError", e)  # next() of something that is not an iterator
+                    try:
+                        return next(a0)
+                    except StopIteration:
+                        if len(args) == 2:
+                            return args[1]
+                        raise Raised("StopIteration", e)
+                raise PEvalUnsupported(f"{n} with these arguments")
+            if n == "object" and not args and not kwargs:
+                return _Sentinel()
             if n == "id" and len(args) == 1 and not isinstance(args[0], Opaque):
                 return id(args[0])  # identity of the abstract object: equal exactly when it is the same object
             if n in ("abs", "min", "max", "bool", "list", "tuple", "sorted", "sum", "any", "all", "range", "enumerate", "zip", "set", "type", "dict", "reversed", "frozenset",
@@ -712,6 +1001,73 @@ class PEval:
                 try:
                     return fn(*args, **kw)
                 except (TypeError, AttributeError) as ex:
+                    raise Raised(type(ex).__name__, e)
+            if r and r[0] == "external" and r[1] in _OPERATOR_FUNCS:
+                return self.call_value(_PyFunc(r[1]), args, kwargs, fi, depth, e)
+            if r and r[0] == "external" and r[1] in ("re.search", "re.match", "re.fullmatch", "re.sub", "re.split", "re.findall", "re.compile", "re.escape"):
+                import re as _re
+                if any(isinstance(a, Opaque) for a in list(args) + list(kwargs.values())):
+                    raise PEvalUnsupported(f"{r[1]} of opaque")
+                if any(not isinstance(a, (str, int, _re.Pattern)) for a in list(args) + list(kwargs.values())):
+                    if any(a is None for a in args):
+                        raise Raised("TypeError", e)
+                    raise PEvalUnsupported(f"{r[1]} with a callable or an object")
+                try:
+                    return getattr(_re, r[1].split(".")[1])(*args, **kwargs)
+                except _re.error:
+                    raise Raised("re.error", e)
+                except TypeError:
+                    raise Raised("TypeError", e)
+            if r and r[0] == "external" and r[1] in ("functools.partial", "operator.methodcaller", "operator.attrgetter", "operator.itemgetter"):
+                if any(isinstance(a, Opaque) for a in args) or not args:
+                    raise PEvalUnsupported(f"{r[1]} of opaque")
+                kind = r[1].split(".")[1]
+                if kind in ("methodcaller", "attrgetter") and not all(isinstance(a, str) for a in (args[:1] if kind == "methodcaller" else args)):
+                    raise Raised("TypeError", e)
+                if kind == "attrgetter" and any("." in a for a in args):
+                    raise PEvalUnsupported("dotted attrgetter")
+                return _Partial(kind, list(args), dict(kwargs) if kind in ("partial", "methodcaller") else {})
+            if r and r[0] == "external" and r[1] in ("collections.deque", "functools.reduce", "itertools.count", "itertools.chain", "itertools.chain.from_iterable",
+                                                      "itertools.islice", "itertools.repeat", "itertools.starmap", "itertools.takewhile", "itertools.dropwhile",
+                                                      "itertools.zip_longest", "itertools.accumulate", "itertools.filterfalse"):
+                import collections as _c
+                import itertools as _it
+                name = r[1]
+                iterated = list(args[1:2]) if name == "functools.reduce" else list(args) + list(kwargs.values())
+                if any(isinstance(a, Opaque) for a in list(args) + list(kwargs.values())) or any(isinstance(a, dict) and isinstance(a.get("__obj__"), bool) for a in iterated):
+                    raise PEvalUnsupported(f"{r[1]} of opaque")
+                try:
+                    if name == "collections.deque":
+                        return _c.deque(*args, **kwargs)
+                    if name == "functools.reduce":
+                        if not (2 <= len(args) <= 3) or kwargs:
+                            raise Raised("TypeError", e)
+                        itr = iter(args[1])
+                        if len(args) == 3:
+                            acc = args[2]
+                        else:
+                            try:
+                                acc = next(itr)
+                            except StopIteration:
+                                raise Raised("TypeError", e)
+                        for x in itr:
+                            acc = self.call_value(args[0], [acc, x], {}, fi, depth, e)
+                        return acc
+                    if name in ("itertools.starmap", "itertools.takewhile", "itertools.dropwhile", "itertools.filterfalse", "itertools.accumulate"):
+                        f0 = args[0] if name != "itertools.accumulate" else (args[1] if len(args) > 1 else kwargs.get("func"))
+                        if name == "itertools.accumulate" and f0 is None:
+                            return _PyIter(_it.accumulate(args[0]))
+                        pyf = (lambda *xs: self.call_value(f0, list(xs), {}, fi, depth, e))
+                        if name == "itertools.starmap":
+                            return _PyIter(_it.starmap(pyf, args[1]))
+                        if name == "itertools.accumulate":
+                            return _PyIter(_it.accumulate(args[0], pyf))
+                        fn_ = {"itertools.takewhile": _it.takewhile, "itertools.dropwhile": _it.dropwhile, "itertools.filterfalse": _it.filterfalse}[name]
+                        return _PyIter(fn_((lambda x: self.truth(pyf(x), e)) if f0 is not None else None, args[1]))
+                    fn_ = {"itertools.count": _it.count, "itertools.chain": _it.chain, "itertools.chain.from_iterable": _it.chain.from_iterable, "itertools.islice": _it.islice,
+                           "itertools.repeat": _it.repeat, "itertools.zip_longest": _it.zip_longest}[name]
+                    return _PyIter(fn_(*args, **kwargs))
+                except (TypeError, ValueError) as ex:
                     raise Raised(type(ex).__name__, e)
             if r and r[0] == "external" and r[1] in ("copy.copy", "uuid.uuid1", "uuid.uuid4", "copy.deepcopy", "json.dumps", "json.loads"):
                 if r[1].startswith("uuid."):
@@ -778,6 +1134,38 @@ class PEval:
                     return getattr(base, f.attr)(*args)
                 except KeyError:
                     raise Raised("KeyError", e)
+            if base is not None and (type(base) is object or isinstance(base, _Sentinel)):
+                raise Raised("AttributeError", e)  # a bare object() has no methods
+            import re as _re2
+            if isinstance(base, (_re2.Match, _re2.Pattern)) and f.attr in ("group", "groups", "groupdict", "start", "end", "span", "search", "match", "fullmatch", "sub", "split", "findall"):
+                if any(isinstance(a, Opaque) or not isinstance(a, (str, int, type(None))) for a in list(args) + list(kwargs.values())):
+                    raise PEvalUnsupported(f"regular-expression method {f.attr} with an unmodelled argument")
+                try:
+                    return getattr(base, f.attr)(*args, **kwargs)
+                except (IndexError, TypeError) as ex:
+                    raise Raised(type(ex).__name__, e)
+            if isinstance(base, _SetLikeList) and f.attr == "isdisjoint" and len(args) == 1 and not isinstance(args[0], Opaque):
+                return base.isdisjoint(list(args[0]) if not isinstance(args[0], (set, frozenset)) else args[0])
+            import collections as _c2
+            if isinstance(base, _c2.deque) and f.attr in ("append", "appendleft", "pop", "popleft", "extend", "extendleft", "clear", "copy", "count", "index", "rotate", "reverse", "remove"):
+                if any(isinstance(a, Opaque) for a in args):
+                    raise PEvalUnsupported(f"deque.{f.attr} of opaque")
+                try:
+                    if f.attr in ("index", "remove", "count") and len(args) == 1:
+                        hits = [i for i, x in enumerate(base) if x is args[0] or (not isinstance(x, dict) and x == args[0])]
+                        if f.attr == "count":
+                            return len(hits)
+                        if not hits:
+                            raise Raised("ValueError", e)
+                        if f.attr == "index":
+                            return hits[0]
+                        del base[hits[0]]
+                        return None
+                    return getattr(base, f.attr)(*args)
+                except IndexError:
+                    raise Raised("IndexError", e)
+                except (TypeError, ValueError) as ex:
+                    raise Raised(type(ex).__name__, e)
             if isinstance(base, (set, frozenset)) and f.attr in ("add", "discard", "remove", "update", "copy", "union", "intersection", "difference", "issubset",
                                                                   "issuperset", "isdisjoint") and (isinstance(base, set) or f.attr not in ("add", "discard", "remove", "update")):
                 if any(isinstance(a, Opaque) for a in args):
@@ -815,6 +1203,8 @@ class PEval:
                 fv = self.eval(f, env, fi, depth)
             except PEvalUnsupported:
                 fv = None
+            if isinstance(fv, (_Closure, _Partial, _PyFunc)):
+                return self.call_value(fv, args, kwargs, fi, depth, e)
             if isinstance(fv, tuple) and len(fv) >= 2 and fv[0] in ("func", "class"):
                 r = fv
             elif isinstance(fv, tuple) and len(fv) == 3 and fv[0] == "boundmethod":
